@@ -34,7 +34,7 @@ def main(tier):
         getL, getx = pairs.flow_pair(sc["flow"], rate=1.0)
         getLk, getxk = pairs.flow_pair(sc["flow"], rate=k)
         try:
-            r1 = pairs.run_member(pd, sc, o0, f0, getL, getx, rate=1.0)
+            r1 = pairs.run_member(pd, sc, o0, f0, getL, getx, rate=1.0, layout=("C", "view")[len(events) % 2])
             r2 = pairs.run_member(pd, sc, o0, f0, getLk, getxk, rate=k)
         except Exception as e:  # noqa: BLE001
             chk.violation(dict(clause="raised", exc=type(e).__name__, k=sc["k"], fabric=sc["fab"]), f"paired run raised {e!r} for k={sc['k']}", dict(scen=sc))
